@@ -483,7 +483,57 @@ func build(r *rt.Run) (scs []scenario, exhaustive bool, extra map[string]any) {
 		})
 	}
 
+	// EMPTY batches (begin/end without points - what an upstream where that drops everything, or an empty
+	// window, sends) next to the silent-parent cases: two batch parents with 1-2 batches each (tmax 1, or 1 then 2),
+	// every batch either empty or holding one point at its tmax, every combination with at least one empty
+	// batch (leading parent, other parent, both; first batch, later batch) x every interleaving.
+	emptyBatchFor := func(c Cfg) {
+		c.Edge, c.N = "batch", 2
+		var cands [2][][]Msg
+		for s := 0; s < 2; s++ {
+			for _, ts := range [][]int{{1}, {1, 2}} {
+				cartesian(len(ts), 2, func(pick []int) {
+					p := mkParent(s, ts, single("x"))
+					for i := range p {
+						p[i].P = []int{}
+						if pick[i] == 1 {
+							p[i].P = []int{p[i].T}
+						}
+					}
+					cands[s] = append(cands[s], p)
+				})
+			}
+			cands[s] = append(cands[s], []Msg{}) // silent parent
+		}
+		hasEmpty := func(p []Msg) bool {
+			for _, m := range p {
+				if len(m.P) == 0 {
+					return true
+				}
+			}
+			return false
+		}
+		for _, a := range cands[0] {
+			for _, b := range cands[1] {
+				if !hasEmpty(a) && !hasEmpty(b) {
+					continue
+				}
+				ps := [][]Msg{a, b}
+				for _, sc := range interleavings(lensOf(ps)) {
+					add(c, ps, sc)
+				}
+			}
+		}
+	}
+
 	if !r.Thorough() {
+		for _, f := range fills {
+			emptyBatchFor(Cfg{Kind: "join", Fill: f, Tol: 0})
+		}
+		emptyBatchFor(Cfg{Kind: "join", Fill: "num", Tol: 0, Streamed: true})
+		batchSetFor(Cfg{Kind: "join", Fill: "num", Tol: 0}, 0, 1)
+		batchSetFor(Cfg{Kind: "join", Fill: "null", Tol: 0}, 0, 1)
+		batchSetFor(Cfg{Kind: "join", Fill: "none", Tol: 0}, 0, 1)
 		batchSetFor(Cfg{Kind: "join", Fill: "null", Tol: 0}, 1, 2)
 		batchSetFor(Cfg{Kind: "join", Fill: "none", Tol: 0}, 1, 2)
 		gatedFor(Cfg{Kind: "join", N: 2, Fill: "null", Tol: 0}, gshapes2)
@@ -515,6 +565,11 @@ func build(r *rt.Run) (scs []scenario, exhaustive bool, extra map[string]any) {
 		}
 		extra["bounds"] = "2 parents x <=2 messages (times 1..3, duplicates, gaps, silent parent) x all interleavings for fill x tolerance; 3 parents x <=1; batch sampled"
 		return scs, false, extra // join.on and batch inputs are sampled in this tier
+	}
+	for _, c := range joinCfgs("batch", 2) {
+		emptyBatchFor(c)
+		c.Streamed = true
+		emptyBatchFor(c)
 	}
 	for _, c := range joinCfgs("batch", 3) {
 		if c.Tol == 0 && c.Fill != "num" {
